@@ -18,7 +18,7 @@ From Coq Require Import List NArith ZArith Bool.
 From Coq Require String.
 From Abasic Require Import Model.Bytes Model.Num Model.Token Model.Data Model.Lexer Gen.Tables
      Model.State Model.Eval Model.Interp Model.Analyzer Proofs.Monad Proofs.Frames Proofs.StoreProofs
-     Proofs.Safety Proofs.AnalyzerFrame Proofs.AnalyzerProofs Proofs.AgreeProofs Proofs.Caps Proofs.CheckSound.
+     Proofs.Safety Proofs.AnalyzerFrame Proofs.AnalyzerProofs Proofs.AgreeProofs Proofs.Caps Proofs.CheckSound Proofs.CheckAgree.
 Import ListNotations.
 Local Open Scope nat_scope.
 
@@ -139,6 +139,43 @@ Theorem C06_dispatchers : forall f nest rec arec,
   /\ an_statement_body f nest arec = (t <-- lift next_token ;; adispatch f nest arec t).
 Proof. intros. split; reflexivity. Qed.
 
+(* THE OTHER DIRECTION (Proofs/CheckAgree.v).  [agree] strengthens [sound]:
+   besides the clause above, whenever the interpreter SUCCEEDS from a related
+   state the checker does not report an error from there (it may still run out
+   of fuel: that is a different outcome and is excluded by C07's fuel bounds),
+   and when both succeed the kind of the value is the type the checker
+   computed and the two cursors are together again.  Over every token stream,
+   for expressions ... *)
+Theorem C06_expression_check_agrees : forall f1 f2 n,
+  agree K (evaluate_expression f1 n) (analyze_expression f2 n).
+Proof. exact expression_check_agrees. Qed.
+
+(* ... and for every statement that neither branches nor jumps *)
+Theorem C06_straight_statement_agrees : forall f1 f2 nest rec arec t, straight_head t = true ->
+  agree (fun _ _ => True) (edispatch f1 nest rec t) (adispatch f2 nest arec t).
+Proof. exact straight_statement_agrees. Qed.
+
+(* spelled out: what the interpreter evaluated / executed is not rejected *)
+Theorem C06_evaluated_expression_is_not_rejected : forall f1 f2 n s sa acc v s',
+  R s sa -> evaluate_expression f1 n s = (Ok v, s') ->
+  forall e l st, analyze_expression f2 n (sa, acc) <> (Err e l, st).
+Proof. exact evaluated_expression_is_not_rejected. Qed.
+
+Theorem C06_executed_statement_is_not_rejected : forall f1 f2 nest rec arec t s sa acc u s', straight_head t = true ->
+  R s sa -> edispatch f1 nest rec t s = (Ok u, s') ->
+  forall e l st, adispatch f2 nest arec t (sa, acc) <> (Err e l, st).
+Proof. exact executed_statement_is_not_rejected. Qed.
+
+(* non-vacuity of the completeness direction: the checker REJECTS  1 + "x"  on
+   a fresh state (so by the theorem the interpreter cannot evaluate it) and the
+   interpreter indeed answers TYPE MISMATCH *)
+Example C06_agree_example :
+  let toks := [TNumber (f64_of_Z 1); TPlus; TString (bs "x")] in
+  let s := set_immediate toks init_interp in
+  (exists l st, analyze_expression 40 0 (s, []) = (Err ETypeMismatch l, st)) /\
+  (exists l st, evaluate_expression 40 0 s = (Err ETypeMismatch l, st)).
+Proof. cbn zeta. split; eexists _, _; vm_compute; reflexivity. Qed.
+
 (* non-vacuity: a fresh interpreter and a fresh analyzer state looking at the
    immediate line  (A + 1) * 2 < N(3) OR B$ = "x" : related, accepted as a number *)
 Example C06_sound_example :
@@ -165,3 +202,7 @@ Print Assumptions C06_assignment_check_sound.
 Print Assumptions C06_print_check_sound.
 Print Assumptions C06_straight_statement_sound.
 Print Assumptions C06_dispatchers.
+Print Assumptions C06_expression_check_agrees.
+Print Assumptions C06_straight_statement_agrees.
+Print Assumptions C06_evaluated_expression_is_not_rejected.
+Print Assumptions C06_executed_statement_is_not_rejected.
